@@ -39,6 +39,10 @@ def cases(rng, tier):
             c["argrep"] = S.pick_argrep(rng)      # the flag as the literal, numpy.bool_, a 0-d array, 0 / 1
             c["container"] = rng.choice(["array", "array", "array", "labels"])
             c["via"] = rng.choice(["process", "weaver"])
+            if c["via"] == "weaver" and rng.random() < 0.3:
+                # a time axis that runs downwards: what scale_x(c) with c < 0 leaves in a Weaver (x_last - x_first < 0)
+                c["descend"] = True
+                c["x"] = [str(-Fraction(v)) for v in c["x"]]
             c["sin"] = False
             # trends whose values are external to the model (judged by the oracle against y_i + f(x_i))
             c["ext"] = rng.choice([None, None, "sin", "clamp", "step", "intconst", "boolstep", "view", "npstep", "accum"])
@@ -152,6 +156,11 @@ def run_impl(c):
             seen = []
             f1 = poly([Fraction(v) for v in c["coef"]])
 
+            def mkW():
+                if c.get("descend"):
+                    return Weaver(S.arr(floats([-v for v in x])), ya).scale_x(-1.0)
+                return Weaver(xa, ya)
+
             def rec(t):
                 seen.append(float(t))
                 return f1(t)
@@ -165,11 +174,11 @@ def run_impl(c):
                 _, r2 = trend(xa, np.array(r1), f2, NZ)
                 _, r0 = trend(xa, ya.copy(), lambda t: 0.0, NZ)
             else:
-                w = Weaver(xa, ya).trend(rec, normalized=NZ)
+                w = mkW().trend(rec, normalized=NZ)
                 rx, r1 = w.get()
                 r1 = r1.copy()
                 r2 = w.trend(f2, normalized=NZ).get()[1]
-                r0 = Weaver(xa, ya).trend(lambda t: 0.0, normalized=NZ).get()[1]
+                r0 = mkW().trend(lambda t: 0.0, normalized=NZ).get()[1]
             out = {"x": [float(v) for v in rx], "y1": [float(v) for v in r1], "y2": [float(v) for v in r2],
                    "y0": [float(v) for v in r0], "seen": seen, "caller_y": [float(v) for v in ya]}
             ext = "sin" if c.get("sin") else c.get("ext")
@@ -178,7 +187,7 @@ def run_impl(c):
                 if c["via"] == "process":
                     out["ext"] = [float(v) for v in trend(xa, ya.copy(), g, NZ)[1]]
                 else:
-                    w2 = Weaver(xa, ya).trend(g, normalized=NZ)
+                    w2 = mkW().trend(g, normalized=NZ)
                     out["ext"] = [float(v) for v in w2.get()[1]]
                     out["ext_x"] = [float(v) for v in w2.get()[0]]
                     out["caller_x"] = [float(v) for v in xa]
